@@ -1,5 +1,6 @@
 import PyElf.Driver.Json
 import PyElf.Spec.ElfImage
+import PyElf.Spec.ElfImageFast
 import PyElf.Model.ElfFile
 import PyElf.Model.Env
 open Lean
@@ -70,7 +71,8 @@ def handle (req : Json) : Except String Json := do
           | some b => pure b
           | none => throw "bad query hex"
       | _ => throw "bad query"
-    match d.assemble tail with
+    -- `assembleFast = assemble` (Spec.ElfDesc.assembleFast_eq); linear in the number of regions
+    match d.assembleFast tail with
     | none => return Json.mkObj [("wf", Json.bool false), ("why", "not encodable")]
     | some bytes =>
       let disjoint := match d.regions with
